@@ -31,6 +31,13 @@ GEN1 = """"linalg.generic"({i0}, {i1}, {o}) <{{indexing_maps = [affine_map<(d0) 
 {ind}}}) {{tag = {t} : i32}} : ({t0}, {t1}, {t2}) -> ()"""
 
 
+GEN1S = """"linalg.generic"({ops}) <{{indexing_maps = [{maps}], iterator_types = [#linalg.iterator_type<parallel>], operandSegmentSizes = array<i32: 2, 1>}}> ({{
+{ind}^bb1(%x{t} : i32, %y{t} : i32, %z{t} : i32):
+{ind}  %m{t} = "arith.muli"(%x{t}, %y{t}) : (i32, i32) -> i32
+{ind}  "linalg.yield"(%m{t}) : (i32) -> ()
+{ind}}}) {{tag = {t} : i32}} : ({tys}) -> ()"""
+
+
 class Declined(Exception):
     pass
 
@@ -96,11 +103,11 @@ def handlers(M: Machine):
         out = I.get(op.outputs[0])
         t = tag(op)
         f = z3.Function(f"f{t}", *([z3.IntSort()] * (len(ins) + 1)))
-        invals = [[load(v, k) for k in range(out.n)] for v in ins]
+        invals = [[load(v, k) if isinstance(v, View) else v for k in range(out.n)] for v in ins]
         res = [f(*[iv[k] for iv in invals]) for k in range(out.n)]
         for k, x in enumerate(res):
             M.mem[out.root] = z3.Store(M.mem[out.root], out.off + k, x)
-        M.ev.append(("op", t, "compute", [(v.root, v.off, v.n) for v in ins], [(out.root, out.off, out.n)], invals))
+        M.ev.append(("op", t, "compute", [(v.root, v.off, v.n) for v in ins if isinstance(v, View)], [(out.root, out.off, out.n)], invals))
 
     def h_sync(I, op):
         M.ev.append(("barrier",))
@@ -158,8 +165,8 @@ def gen_case(rnd):
             # the source has to be race free itself: two operations of one stage on different cores share no buffer
             # that one of them writes
             if len(ops) == 2 and ops[0][0] != ops[1][0]:
-                r0, w0 = set(ops[0][1:-2]), {ops[0][-2]}
-                r1, w1 = set(ops[1][1:-2]), {ops[1][-2]}
+                r0, w0 = set(x for x in ops[0][1:-2] if str(x).startswith("%")), {ops[0][-2]}
+                r1, w1 = set(x for x in ops[1][1:-2] if str(x).startswith("%")), {ops[1][-2]}
                 if (w0 & (r1 | w1)) or (w1 & (r0 | w0)):
                     ops = ops[:1]
             stages.append(ops)
@@ -177,18 +184,30 @@ def gen_case(rnd):
     else:
         loop = ("sym_step",)
     mul = rnd.choice([NT, NT, NT // 2 * 2, 2 * NT])
-    return (S, tuple(tiles), tuple(tuple(s) for s in stages), loop, mul)
+    # some compute operations take a scalar next to their buffer (zero point of a quantised kernel), first or last
+    stages = [[(("gens", o[1], rnd.choice(["first", "last"]), o[3], o[4]) if o[0] == "gen" and rnd.random() < 0.25 else o) for o in ops] for ops in stages]
+    # tile buffers are allocations, or views into one scratchpad allocated in front of the loop
+    tile_kind = "view" if rnd.random() < 0.2 else "alloc"
+    return (S, tuple(tiles), tuple(tuple(s) for s in stages), loop, mul, tile_kind)
 
 
 def render(case):
-    S, tiles, stages, loop, mul = case
+    S, tiles, stages, loop, mul = case[:5]
+    tile_kind = case[5] if len(case) > 5 else "alloc"
     L = []
     P = "      "
-    ty = lambda v: TILE if v.startswith("%t") else SUB
+    ty = lambda v: (TILE if tile_kind == "alloc" else SUB) if v.startswith("%t") else SUB
     for ops in stages:
         for o in ops:
             if o[0] == "copy":
                 L.append(P + f'"memref.copy"({o[1]}, {o[2]}) {{tag = {o[3]} : i32}} : ({ty(o[1])}, {ty(o[2])}) -> ()')
+            elif o[0] == "gens":
+                _, buf, pos, out, t = o
+                ins = [("%zp", "i32", "affine_map<(d0) -> ()>"), (buf, ty(buf), "affine_map<(d0) -> (d0)>")]
+                if pos == "last":
+                    ins.reverse()
+                L.append(P + GEN1S.format(ops=", ".join(x[0] for x in ins) + ", " + out, maps=", ".join(x[2] for x in ins) + ", affine_map<(d0) -> (d0)>",
+                                          tys=", ".join(x[1] for x in ins) + ", " + ty(out), t=t, ind=P))
             else:
                 L.append(P + GEN1.format(i0=o[1], i1=o[2], o=o[3], t=o[4], t0=ty(o[1]), t1=ty(o[2]), t2=ty(o[3]), ind=P))
         L.append(P + '"snax.cluster_sync_op"() : () -> ()')
@@ -200,10 +219,14 @@ def render(case):
         bounds = "    %k0 = arith.constant 0 : index\n    %l = arith.addi %lb, %k0 : index\n    %u = arith.addi %ub, %k0 : index\n    %s = arith.constant 1 : index"
     else:
         bounds = "    %l = arith.constant 0 : index\n    %u = arith.addi %ub, %l : index\n    %s = arith.addi %st, %l : index"
-    allocs = "\n".join(f"    {t} = memref.alloc() : {TILE}" for t in tiles)
+    if tile_kind == "alloc":
+        allocs = "\n".join(f"    {t} = memref.alloc() : {TILE}" for t in tiles)
+    else:
+        allocs = f"    %scratch = memref.alloc() : memref<{NT * len(tiles)}xi32>\n" + "\n".join(
+            f"    {t} = memref.subview %scratch[{NT * k}] [{NT}] [1] : memref<{NT * len(tiles)}xi32> to {SUB}" for k, t in enumerate(tiles))
     return f"""
 builtin.module {{
-  func.func public @f(%A : {BIG}, %B : {BIG}, %C : {BIG}, %lb : index, %ub : index, %st : index) {{
+  func.func public @f(%A : {BIG}, %B : {BIG}, %C : {BIG}, %lb : index, %ub : index, %st : index, %zp : i32) {{
     %c = arith.constant {mul} : index
 {bounds}
 {allocs}
@@ -226,7 +249,7 @@ def run_machine(m, name, K, lb, ub, st, inits):
     I.handlers.update(handlers(M))
     f = [g for g in irsym.module_funcs(m) if g.sym_name.data == "f"][0]
     args = [View(M.new_root(f"arg{k}", inits[k]), 0, NBIG, f"arg{k}") for k in range(3)]
-    I.run_func(f, args + [lb, ub, st])
+    I.run_func(f, args + [lb, ub, st, z3.Int("zp")])
     return M
 
 
